@@ -25,6 +25,22 @@ error" comment, and the property statement):
 Delays: the wait after the k-th failure lies in [min(c/2, 60000), min(c, 60000)] ms, c = 1000 * 2^min(k, 30)
 (AWS "equal jitter" as cited in delay_ms_for_try, capped by the maximum).
 Exception classes that exist only as inert stubs in the sandbox are excluded and listed in the evidence.
+
+Implicit exception context ("raise any other error immediately" for errors raised *while another one is being
+handled*).  A failure does not always leave the operation as a freshly raised exception: fallback / cleanup /
+error-translation code raises inside `except`, `finally` or `__exit__`, and the interpreter then records the exception
+that was being handled as `__context__` of the new one (also under `raise X from None`, which only sets
+`__suppress_context__`).  `__context__` says "happened during handling of", not "was caused by" (that is `__cause__`,
+the only link the code documents: "chained via __cause__"), so the class of a failure is the class of its own value
+and of its explicit cause chain and is NOT changed by what was being handled when it was raised:
+   P raised while handling T / R / TL / L  -> still propagates at once (a deterministic permanent error would
+                                              otherwise be retried for ever, or swallowed by a later success)
+   T / R / TL raised while handling P      -> still retried (the documented `raise asyncio.TimeoutError from None`
+                                              of aiohttp's TimerContext is raised while handling a CancelledError)
+   L raised while handling T               -> still limited-only: 6th such failure propagates
+The workload therefore raises catalogue values in every "raise mode" of CONTEXT_MODES below (tokens
+`NAME@MODE:CONTEXT-NAME` in a sequence) and also runs whole retried calls inside a caller's `except` block
+(`ambient`), where every failure of the operation gets the caller's exception as context.
 """
 import asyncio
 import errno
@@ -42,13 +58,20 @@ RULE = (
     'phase limited: every sequence of length <= 7 over {limited-only, limited-only (HTTP 400 variant), transient, transient+limited, rate-limit} '
     '(quick: 4 of the 5 symbols, length 7 only after six limited-only failures), optionally ended by a permanent error; phase random: seeded sequences of length 0..14 over the whole '
     'catalogue (~60 values incl. __cause__ chains) through the three async helpers and the sync helper; phase delay: delay_ms_for_try / '
-    'sleep_before_try for tries 0..40 x base x max with the jitter source at both extremes. '
-    'Distinct = (helper, sequence of catalogue names); non-trivial = at least one failure.'
+    'sleep_before_try for tries 0..40 x base x max with the jitter source at both extremes; '
+    'phase context: every (value, raise mode, value being handled) over representative values (quick: all permanent rows + 8 retryable x 14 handled; '
+    'thorough: all x all) x the 7 raise modes (inside except / except + from None / finally / __exit__ / two-deep handler / handler of an explicitly '
+    'chained wrapper / except + from a permanent cause) after 0, 1 or 2 genuine transient failures, seven-fold limited-only failures raised '
+    'while handling retryable ones, and whole retried calls made inside a caller\'s except block (ambient); phase random-context: seeded sequences whose '
+    'elements are raised in random modes / ambient. '
+    'Distinct = (helper, sequence of catalogue names with raise mode and handled value, ambient handled value); non-trivial = at least one failure.'
 )
 ASSUMPTIONS = [
     'the CATALOGUE table is the classification the statement and the in-code documentation give to each listed exception value',
     'vf.sim.vloop virtual clock: asyncio.sleep(d) advances loop.time() by exactly d',
     'aiohttp / socket / OSError exception classes are the installed real ones; stub-only classes are excluded',
+    'an exception that was merely being handled when a failure was raised (__context__, also under `from None`) is not a cause of that failure: '
+    'the class of a failure is that of its own value and explicit __cause__ chain',
 ]
 TRUSTED_BASE = ['vf/sim/vloop.py', 'the CATALOGUE table in vf/monitors/c21.py', 'CPython asyncio']
 SHARDS = {'quick': 1, 'thorough': 16}
@@ -69,6 +92,22 @@ FLOORS = {
     'jitter_at_upper_extreme': 1000,
     'delay_direct_checked': 1000,
     'catalogue_rows': 50,
+    # implicit exception context (about half of the minimum observed in the quick tier over seeds 0..4)
+    'sequences_context': 9000,
+    'sequences_random_context': 1500,
+    'ambient_context_runs': 1300,
+    'failures_with_implicit_context': 15000,
+    'failures_with_suppressed_context': 1600,
+    'implicit_context:P_while_handling_T': 3000,
+    'implicit_context:P_while_handling_R': 1000,
+    'implicit_context:P_while_handling_TL': 500,
+    'implicit_context:P_while_handling_L': 1000,
+    'implicit_context:P_while_handling_P': 1600,
+    'implicit_context:retryable_while_handling_P': 2000,
+    'implicit_context:retryable_while_handling_retryable': 5500,
+    'implicit_context:limited_sixth_while_handling_transient': 110,
+    'context_modes': 8,
+    'context_pairs': 100,
 }
 
 MAX_MS = 60_000
@@ -180,10 +219,13 @@ def build_catalogue():
     row('RuntimeError<-ValueError', 'P', caused(lambda: RuntimeError('w'), lambda: ValueError('v')), 'chain of permanent errors')
     row('RuntimeError<-aiohttp-404', 'P', caused(lambda: RuntimeError('w'), aio(404)), 'chain of permanent errors')
     row('CancelledError', 'P', lambda: asyncio.CancelledError(), 'cancellation is never retried')
+    # formerly in the not-judged list; judged since the implicit-context clause was added (module docstring): a permanent value whose only link to a
+    # transient one is __context__ ("during handling of"), not __cause__
+    row('RuntimeError-context-only-TimeoutError', 'P', with_context_only(lambda: RuntimeError('during handling'), lambda: asyncio.TimeoutError()), 'implicit context is not a cause')
+    row('RuntimeError-context-only-ConnectionResetError-bare', 'P', with_context_only(lambda: RuntimeError('during handling'), lambda: ConnectionResetError()), 'implicit context is not a cause (limited-retry classifier)')
 
     # ---- run, recorded, not judged: the statement does not determine the class
     U = [
-        ('RuntimeError-context-only-TimeoutError', with_context_only(lambda: RuntimeError('during handling'), lambda: asyncio.TimeoutError())),
         ('ClientPayloadError-other', lambda: aiohttp.ClientPayloadError('Not enough data to satisfy content length header')),
         ('ClientConnectorError-EACCES', lambda: aiohttp.ClientConnectorError(key, OSError(errno.EACCES, 'Permission denied'))),
         ('OSError-ECONNABORTED', lambda: OSError(errno.ECONNABORTED, 'Software caused connection abort')),
@@ -210,6 +252,101 @@ LIMITED_ALPHABET = ['ConnectionResetError-bare', 'aiohttp-503', 'aiohttp-429', '
 LIMITED_TAILS = [None, 'ValueError']
 
 SENTINEL = ('ok', 'C21')
+
+# ---- implicit exception context ---------------------------------------------------------------------------
+# how a failure leaves the operation while another exception (the "handled" one) is being handled
+CONTEXT_MODES = (
+    'except',                 # try: raise H / except: raise E                      E.__context__ = H
+    'except-from-None',       # ... except: raise E from None                       same + __suppress_context__ (cause chain of E is erased, so only own-value rows)
+    'finally',                # try: raise H / finally: raise E
+    'with-exit',              # with cm: raise H      where cm.__exit__ raises E
+    'except-nested',          # E raised while handling a permanent cleanup error raised while handling H (two-link context chain)
+    'except-wrapped-cause',   # E raised while handling RuntimeError('wrapped') from H  (the context has a cause)
+    'except-from-permanent',  # ... except: raise E from ValueError(..)             explicit permanent cause AND implicit context H (own-value rows only)
+)
+OWN_VALUE_ONLY_MODES = ('except-from-None', 'except-from-permanent')  # `from` overwrites E.__cause__: not applicable to the `A<-B` rows
+# quick tier: values raised in a context = every permanent row + these; values being handled = CONTEXT_HANDLED
+CONTEXT_OWN_RETRYABLE = [
+    'asyncio.TimeoutError', 'aiohttp-503', 'OSError-EPIPE', 'RuntimeError<-aiohttp-503', 'aiohttp-429', 'ConnectionResetError-104',
+    'ConnectionResetError-bare', 'httpx-400-user-project',
+]
+CONTEXT_HANDLED = [
+    'asyncio.TimeoutError', 'aiohttp-503', 'OSError-ETIMEDOUT', 'ClientOSError-ECONNRESET', 'TransientError', 'ValueError<-asyncio.TimeoutError',
+    'aiohttp-429', 'httpx-403-rateLimitExceeded', 'ConnectionResetError-104', 'ConnectionRefusedError-bare', 'httpx-400-invalid-grant',
+    'ValueError', 'aiohttp-404', 'CancelledError',
+]
+CONTEXT_PREFIXES = [(), ('asyncio.TimeoutError',), ('aiohttp-503', 'aiohttp-429')]
+
+
+def tok(name, mode=None, handled=None):
+    return name if mode is None else f'{name}@{mode}:{handled}'
+
+
+def parse_tok(t):
+    if '@' not in t:
+        return t, None, None
+    name, rest = t.split('@', 1)
+    mode, handled = rest.split(':', 1)
+    return name, mode, handled
+
+
+def mode_applies(mode, name):
+    return not (mode in OWN_VALUE_ONLY_MODES and '<-' in name)
+
+
+class _RaisingExit:
+    def __init__(self, e):
+        self.e = e
+
+    def __enter__(self):
+        return self
+
+    def __exit__(self, *exc):
+        raise self.e
+
+
+def raise_in_context(mode, e, make_handled):
+    """raise e the way real fallback / cleanup / translation code does while make_handled() is being handled"""
+    if mode == 'except':
+        try:
+            raise make_handled()
+        except BaseException:  # noqa: BLE001
+            raise e
+    elif mode == 'except-from-None':
+        try:
+            raise make_handled()
+        except BaseException:  # noqa: BLE001
+            raise e from None
+    elif mode == 'finally':
+        try:
+            raise make_handled()
+        finally:
+            raise e  # noqa: B012
+    elif mode == 'with-exit':
+        with _RaisingExit(e):
+            raise make_handled()
+    elif mode == 'except-nested':
+        try:
+            raise make_handled()
+        except BaseException:  # noqa: BLE001
+            try:
+                raise RuntimeError('cleanup failed')
+            except RuntimeError:
+                raise e
+    elif mode == 'except-wrapped-cause':
+        try:
+            try:
+                raise make_handled()
+            except BaseException as h:  # noqa: BLE001
+                raise RuntimeError('wrapped') from h
+        except RuntimeError:
+            raise e
+    elif mode == 'except-from-permanent':
+        try:
+            raise make_handled()
+        except BaseException:  # noqa: BLE001
+            raise e from ValueError('explicit permanent cause')
+    raise AssertionError(mode)
 
 
 class JitterProxy:
@@ -273,9 +410,29 @@ def run(ctx):
     u.random = jit
 
     # ---- one evaluation --------------------------------------------------------------------
-    async def evaluate(loop, helper, names, rng, judged=True, factories=None):
-        """run one sequence through one helper; returns list of (key, what)"""
-        seq = [(n,) + tuple(by_name[n]) if factories is None else (n, None, factories[n]) for n in names]
+    async def evaluate(loop, helper, names, rng, judged=True, factories=None, ambient=None):
+        """run one sequence through one helper; returns list of (key, what).  Elements are catalogue names or tokens
+        NAME@MODE:HANDLED (raise_in_context); ambient = catalogue name of an exception the *caller* is handling during the whole call"""
+
+        def resolve(t):
+            name, mode, handled = parse_tok(t)
+            cls, fac = (None, factories[name]) if factories is not None else by_name[name]
+            hcls, hfac = by_name[handled] if mode is not None else (None, None)
+            if mode is not None and not mode_applies(mode, name):
+                raise AssertionError(f'{mode} erases the explicit cause of {name}')
+            return (t, cls, fac, name, mode, hcls, hfac)
+
+        seq = [resolve(t) for t in names]
+        amb_cls, amb_fac = by_name[ambient] if ambient is not None else (None, None)
+
+        def fail(i):
+            _, _, fac, _, mode, _, hfac = seq[i]
+            e = fac()
+            raised_objs.append(e)
+            fail_times.append(loop.time())
+            if mode is None:
+                raise e
+            raise_in_context(mode, e, hfac)
         raised_objs = []
         call_times = []
         fail_times = []
@@ -286,10 +443,7 @@ def run(ctx):
             args_seen.append((a, k))
             i = len(call_times) - 1
             if i < len(seq):
-                e = seq[i][2]()
-                raised_objs.append(e)
-                fail_times.append(loop.time())
-                raise e
+                fail(i)
             return SENTINEL
 
         def sync_op(*a, **k):
@@ -297,10 +451,7 @@ def run(ctx):
             args_seen.append((a, k))
             i = len(call_times) - 1
             if i < len(seq):
-                e = seq[i][2]()
-                raised_objs.append(e)
-                fail_times.append(loop.time())
-                raise e
+                fail(i)
             return SENTINEL
 
         jit.calls.clear()
@@ -308,21 +459,33 @@ def run(ctx):
         jit.mode = rng.choice(['lo', 'hi', 'mixed', 'seeded'])
         a, k = (1, 'two'), {'kw': 3}
         out = None
-        try:
+
+        async def invoke():
             if helper == 'plain':
-                out = ('value', await u.retry_transient_errors(op, *a, **k))
-            elif helper == 'debug':
-                out = ('value', await u.retry_transient_errors_with_debug_string('debug-string', 0, op, *a, **k))
-            elif helper == 'delayed':
-                out = ('value', await u.retry_transient_errors_with_delayed_warnings(rng.choice([0, 5_000, 10**9]), op, *a, **k))
-            elif helper == 'sync':
+                return await u.retry_transient_errors(op, *a, **k)
+            if helper == 'debug':
+                return await u.retry_transient_errors_with_debug_string('debug-string', 0, op, *a, **k)
+            if helper == 'delayed':
+                return await u.retry_transient_errors_with_delayed_warnings(rng.choice([0, 5_000, 10**9]), op, *a, **k)
+            if helper == 'sync':
                 u.time = types.SimpleNamespace(sleep=loop.advance, time=real_time.time, monotonic=real_time.monotonic, time_ns=real_time.time_ns)
                 try:
-                    out = ('value', u.sync_retry_transient_errors(sync_op, *a, **k))
+                    return u.sync_retry_transient_errors(sync_op, *a, **k)
                 finally:
                     u.time = real_time
+            raise AssertionError(helper)
+
+        try:
+            if ambient is None:
+                out = ('value', await invoke())
             else:
-                raise AssertionError(helper)
+                # the caller retries from inside its own handler (cleanup / fallback after a failure): whatever the operation raises gets
+                # the caller's exception as __context__
+                ctx.count('ambient_context_runs')
+                try:
+                    raise amb_fac()
+                except BaseException:  # noqa: BLE001
+                    out = ('value', await invoke())
         except BaseException as e:  # noqa: BLE001 - CancelledError is one of the rows
             out = ('raised', e)
 
@@ -335,8 +498,30 @@ def run(ctx):
         # ---- classification walk --------------------------------------------------------------
         n_L = 0
         verdict_done = False
+        # was the workload what it claims to be: did the interpreter really record a handled exception on the failure?
+        for idx, e in enumerate(raised_objs):
+            expected = seq[idx][4] is not None or ambient is not None
+            if e.__context__ is not None:
+                ctx.count('failures_with_implicit_context')
+                if e.__suppress_context__ and e.__cause__ is None:  # raise ... from None
+                    ctx.count('failures_with_suppressed_context')
+            elif expected:
+                ctx.count('implicit_context_expected_but_absent')
+                ctx.inconclusive_because(f'{seq[idx][0]} [{helper}, ambient {ambient}] was raised without the intended __context__')
         for idx in range(min(n_calls, len(seq))):
-            name, cls, _ = seq[idx]
+            tk, cls, _, name, mode, hcls, _ = seq[idx]
+            in_ctx = mode is not None or ambient is not None
+            how = '' if not in_ctx else ' raised ' + ' and '.join(
+                ([f'in mode {mode!r} while handling {parse_tok(tk)[2]} ({hcls})'] if mode else []) + ([f'inside a caller handling {ambient} ({amb_cls})'] if ambient else [])
+            )
+            sfx = '/implicit-context' if in_ctx else ''
+            if judged and cls is not None:
+                if mode is not None:
+                    ctx.seen('context_modes', mode)
+                    ctx.seen('context_pairs', f'{cls} {mode} while handling {hcls}')
+                if ambient is not None:
+                    ctx.seen('context_modes', 'ambient')
+                    ctx.seen('context_pairs', f'{cls} ambient while handling {amb_cls}')
             kth = idx + 1
             is_last_call = idx == n_calls - 1
             propagated = is_last_call and out[0] == 'raised'
@@ -352,29 +537,40 @@ def run(ctx):
                 if propagated:
                     label = {'T': 'transient', 'R': 'rate-limit', 'TL': 'transient'}[cls]
                     chain = '/chained' if '<-' in name else ''
-                    bad.append((f'{label}{chain}/not-retried', f'{name} ({cls}) as failure {kth} was raised instead of retried [{helper}]'))
+                    bad.append((f'{label}{chain}/not-retried{sfx}', f'{name} ({cls}){how} as failure {kth} was raised instead of retried [{helper}]'))
                 else:
                     ctx.count(f'retried[{cls}]')
+                    for h in (hcls, amb_cls):
+                        if h is not None:
+                            ctx.count('implicit_context:retryable_while_handling_' + ('P' if h == 'P' else 'retryable'))
             elif cls == 'P':
                 if not propagated:
-                    bad.append(('permanent/retried', f'{name} as failure {kth} was retried [{helper}]'))
+                    bad.append((f'permanent/retried{sfx}', f'{name}{how} as failure {kth} was retried [{helper}]'))
                 else:
                     ctx.count('propagated[P]')
+                    for h in (hcls, amb_cls):
+                        if h is not None:
+                            ctx.count(f'implicit_context:P_while_handling_{h}')
             elif cls == 'L':
                 n_L += 1
                 if helper == 'sync':
                     ctx.count('sync_limited_not_judged')
                 elif n_L >= 6:
                     ctx.count('limited_sixth_occurrence_checked')
+                    if any(h in ('T', 'R', 'TL') for h in (hcls, amb_cls)):
+                        ctx.count('implicit_context:limited_sixth_while_handling_transient')
                     if not propagated:
-                        bad.append(('limited/more-than-five-retries', f'{name}: {n_L}th limited-retry-only failure (failure {kth}) was retried again'))
+                        bad.append((f'limited/more-than-five-retries{sfx}', f'{name}{how}: {n_L}th limited-retry-only failure (failure {kth}) was retried again'))
                     else:
                         ctx.count('propagated[L]')
                 elif kth <= 5:
                     if propagated:
-                        bad.append(('limited/not-retried', f'{name}: limited-retry failure {kth} (limited #{n_L}) was raised although fewer than five retries were used'))
+                        bad.append((f'limited/not-retried{sfx}', f'{name}{how}: limited-retry failure {kth} (limited #{n_L}) was raised although fewer than five retries were used'))
                     else:
                         ctx.count('retried[L]')
+                        for h in (hcls, amb_cls):
+                            if h is not None:
+                                ctx.count('implicit_context:retryable_while_handling_' + ('P' if h == 'P' else 'retryable'))
                 else:
                     ctx.count('limited_either_zone_' + ('propagated' if propagated else 'retried'))
                     if propagated:
@@ -407,13 +603,16 @@ def run(ctx):
                 ctx.count('jitter_at_upper_extreme')
         return bad, out, n_calls
 
-    def report(bad, helper, names, out, n_calls):
+    def report(bad, helper, names, out, n_calls, ambient=None):
         seen = set()
         for key, what in bad:
             if key in seen:
                 continue
             seen.add(key)
-            ctx.violation(key, what, witness={'helper': helper, 'sequence': list(names), 'calls': n_calls, 'outcome': [out[0], repr(out[1])]})
+            w = {'helper': helper, 'sequence': list(names), 'calls': n_calls, 'outcome': [out[0], repr(out[1])]}
+            if ambient is not None:
+                w['ambient'] = ambient
+            ctx.violation(key, what, witness=w)
 
     try:
         # ---- phase enum ------------------------------------------------------------------------
@@ -444,6 +643,42 @@ def run(ctx):
                     for tail in LIMITED_TAILS:
                         yield body + ((tail,) if tail else ())
 
+        all_names = [n for n, _, _, _ in C]
+        perm_all = [n for n in all_names if by_name[n][0] == 'P']
+
+        def context_sequences():
+            """(sequence, ambient, helpers): failures that leave the operation while another exception is being handled"""
+            own = (perm_all + CONTEXT_OWN_RETRYABLE) if ctx.quick else all_names
+            handled = CONTEXT_HANDLED if ctx.quick else all_names
+            asyncs = ('plain', 'debug', 'delayed')
+            k = 0
+            # (a) one value raised in every mode while handling every handled value, as the 1st, 2nd or 3rd failure; then success
+            for name in own:
+                for mode in CONTEXT_MODES:
+                    if not mode_applies(mode, name):
+                        continue
+                    for h in handled:
+                        for prefix in CONTEXT_PREFIXES:
+                            k += 1
+                            yield prefix + (tok(name, mode, h),), None, (asyncs[k % 3], 'sync')
+            # (b) limited-retry-only failures, each raised while a retryable error is being handled: still only five retries
+            for name in [n for n in own if by_name[n][0] == 'L']:
+                for mode in CONTEXT_MODES:
+                    if not mode_applies(mode, name):
+                        continue
+                    for h in [x for x in handled if by_name[x][0] in ('T', 'R', 'TL')]:
+                        k += 1
+                        yield (tok(name, mode, h),) * 7, None, (asyncs[k % 3],)
+                        yield ('aiohttp-503',) + (tok(name, mode, h),) * 6, None, (asyncs[(k + 1) % 3],)
+            # (c) the whole retried call happens inside a caller's handler
+            t0, t1, r0, l0, l1, tl0 = 'asyncio.TimeoutError', 'aiohttp-503', 'aiohttp-429', 'ConnectionResetError-bare', 'httpx-400-user-project', 'ConnectionResetError-104'
+            for amb in handled:
+                for pn in perm_all:
+                    yield (pn,), amb, ('plain', 'debug', 'delayed', 'sync')
+                    yield (t0, pn), amb, ('plain', 'sync')
+                for fixed in ((), (t0, t1, r0), (l0,) * 7, (l1,) * 7, (tl0,) * 7, (l0, t0, l1, 'ValueError'), (t1, tok('ValueError', 'except', t0))):
+                    yield fixed, amb, ('plain', 'debug', 'delayed', 'sync')
+
         async def enum_main(loop):
             n = 0
             for phase, gen in (('enum', enum_sequences()), ('limited', limited_sequences())):
@@ -460,6 +695,26 @@ def run(ctx):
                     ctx.case(sample={'helper': helper, 'sequence': list(names), 'calls': n_calls, 'outcome': out[0]}, key=(helper, names), nontrivial=len(names) > 0)
                     ctx.count('sequences_' + phase)
                     report(bad, helper, names, out, n_calls)
+            stop = False
+            for names, amb, helpers in context_sequences():
+                n += 1
+                if n % ctx.n_shards != ctx.shard:
+                    continue
+                for helper in helpers:
+                    if ctx.out_of_time():
+                        ctx.count('stopped_early_context')
+                        stop = True
+                        break
+                    rng = ctx.rng('context', n, helper)
+                    bad, out, n_calls = await evaluate(loop, helper, names, rng, ambient=amb)
+                    ctx.case(
+                        sample={'helper': helper, 'sequence': list(names), 'ambient': amb, 'calls': n_calls, 'outcome': out[0]},
+                        key=(helper, names, amb), nontrivial=len(names) > 0,
+                    )
+                    ctx.count('sequences_context')
+                    report(bad, helper, names, out, n_calls, ambient=amb)
+                if stop:
+                    break
 
         ctx.set_time_budget(ctx.pick(45, 480))
         if ctx.replay is None:
@@ -469,15 +724,14 @@ def run(ctx):
 
             async def replay_main(loop):
                 names = tuple(w['sequence'])
-                known = all(n in by_name for n in names)
-                bad, out, n_calls = await evaluate(loop, w['helper'], names, ctx.rng('replay'), judged=known, factories=None if known else dict(U))
-                ctx.case(sample=w, key=(w['helper'], names))
-                report(bad, w['helper'], names, out, n_calls)
+                known = all(parse_tok(n)[0] in by_name for n in names)
+                bad, out, n_calls = await evaluate(loop, w['helper'], names, ctx.rng('replay'), judged=known, factories=None if known else dict(U), ambient=w.get('ambient'))
+                ctx.case(sample=w, key=(w['helper'], names, w.get('ambient')))
+                report(bad, w['helper'], names, out, n_calls, ambient=w.get('ambient'))
 
             run_virtual(replay_main, start=0.0, max_steps=None)
 
         # ---- phase random ----------------------------------------------------------------------
-        all_names = [n for n, _, _, _ in C]
         u_fac = dict(U)
         N = ctx.pick(4000, 30000)
         for _i, rng in ctx.cases(N, 'random'):
@@ -503,6 +757,38 @@ def run(ctx):
             ctx.case(sample={'helper': helper, 'sequence': list(names), 'calls': n_calls, 'outcome': out[0]}, key=(helper, names), nontrivial=len(names) > 0)
             ctx.count('sequences_random')
             report(bad, helper, names, out, n_calls)
+
+        # ---- phase random-context: the same, failures raised in random modes while handling random values ----------
+        nonperm_all = [n for n in all_names if by_name[n][0] != 'P']
+        for _i, rng in ctx.cases(ctx.pick(3000, 20000), 'random-context'):
+            helper = rng.choice(['plain', 'debug', 'delayed', 'plain', 'sync'])
+            length = rng.choice([0, 1, 1, 2, 3, 4, 6, 7, 9, 12])
+            style = rng.random()
+            if style < 0.35:  # heavy on limited-only, raised while handling transient ones
+                pool = [n for n in all_names if by_name[n][0] == 'L'] * 3 + ['aiohttp-503', 'aiohttp-429', 'ConnectionResetError-104']
+            else:
+                pool = nonperm_all
+            plain = [rng.choice(pool) for _ in range(length)]
+            if rng.random() < 0.6:
+                plain.append(rng.choice(perm_all))
+            amb = rng.choice(all_names) if rng.random() < 0.2 else None
+            p_dec = rng.choice([0.3, 0.7, 1.0])
+            names = []
+            for nm in plain:
+                if rng.random() < p_dec:
+                    mode = rng.choice([m for m in CONTEXT_MODES if mode_applies(m, nm)])
+                    names.append(tok(nm, mode, rng.choice(all_names)))
+                else:
+                    names.append(nm)
+            names = tuple(names)
+
+            async def main(loop, helper=helper, names=names, rng=rng, amb=amb):
+                return await evaluate(loop, helper, names, rng, ambient=amb)
+
+            bad, out, n_calls = run_virtual(main, start=0.0, max_steps=None)
+            ctx.case(sample={'helper': helper, 'sequence': list(names), 'ambient': amb, 'calls': n_calls, 'outcome': out[0]}, key=(helper, names, amb), nontrivial=len(names) > 0)
+            ctx.count('sequences_random_context')
+            report(bad, helper, names, out, n_calls, ambient=amb)
 
         # ---- undetermined rows: executed and recorded, classification not judged --------------------
         if ctx.replay is None and ctx.shard == 0:
@@ -572,3 +858,16 @@ def run(ctx):
 #   B10 separate limited counter allowing six retries                     caught  limited/more-than-five-retries (7 limited-only failures)
 #   B11 maximum not applied for some jitter values at tries == 6          caught  delay/above-maximum
 #   B12 B1 + httpx 403 rateLimitExceeded no longer transient              caught  rate-limit/not-retried
+#
+# Implicit-context clause (added 2026-09-22 after seeded/C21-agent4 was missed: every failure used to be a freshly raised object, so
+# __context__ was always None and "any other error is raised immediately" was never exercised for errors raised inside a handler).
+# Scratch worktree, quick tier, seed 0, one edit at a time; unchanged tree silent: quick seeds 0..4, thorough seeds 0..2.
+#   seeded/C21-agent4  is_transient_error follows `__cause__ or __context__`   caught  permanent/retried/implicit-context, limited/more-than-five-retries/implicit-context,
+#                                                                               permanent/retried (the context-only catalogue rows)
+#   seeded/C21-agent2                                                           still caught  transient[/chained]/not-retried (+ /implicit-context)
+#   N1  is_limited_retries_error follows `__cause__ or __context__`            caught  permanent/retried/implicit-context
+#   N2  is_transient_error follows __context__ unless __suppress_context__     caught  permanent/retried/implicit-context, limited/more-than-five-retries/implicit-context
+#   N3  ... follows __context__ only under `from None` (timeouts / OSError)     caught  permanent/retried/implicit-context (mode except-from-None)
+#   N4  asyncio.TimeoutError raised while handling a non-timeout is permanent   caught  transient/not-retried/implicit-context
+#   N5  sync_retry_transient_errors alone also accepts a transient __context__  caught  permanent/retried/implicit-context [sync]
+#   N6  only the __cause__ of the __context__ is followed                       caught  permanent/retried/implicit-context (mode except-wrapped-cause)
